@@ -15,11 +15,11 @@ EXTENDS LocCore
 CONSTANTS AttStates, QrsStates, Natives   \* tier-dependent thinning of the product (sets of pairs / records)
 
 AttQuick == {<<"absent", "absent">>, <<"present", "absent">>, <<"absent", "present">>, <<"blank", "present">>}
-QrsQuick == {<<"absent", "absent">>, <<"present", "present">>, <<"absent", "present">>}
+QrsQuick == {<<"absent", "absent">>, <<"present", "present">>, <<"absent", "present">>, <<"blanks", "present">>, <<"present", "blanks">>}
 \* (a send_msg action without text does not load, so the text part is always natively present)
 NatQuick == [text : {TRUE}, attachments : BOOLEAN, quick_replies : BOOLEAN]
 AttFull  == {"absent", "blank", "present"} \X {"absent", "blank", "present"}
-QrsFull  == {"absent", "present"} \X {"absent", "empty", "present"}
+QrsFull  == {"absent", "present", "blanks"} \X {"absent", "empty", "present", "blanks"}
 NatFull  == NatQuick
 
 VARIABLES cl, allowed, base, native, st, stale
@@ -49,10 +49,12 @@ tr == [p \in Props |-> [l \in Langs |-> IF l = base THEN (IF stale THEN "present
 P == Prefs(cl, allowed, base)
 LangOf(p) == Pick(P, base, tr[p])
 \* does the resolved value of part p exist (non-empty)?  a translation replaces the native value entirely
-HasPart(p) == IF LangOf(p) = base THEN native[p] ELSE TRUE
+HasPart(p) == IF LangOf(p) = base THEN native[p] ELSE tr[p][LangOf(p)] # "blanks"
+\* where the value of part p comes from: nowhere, when the translation that wins consists of empty elements only
+SrcOf(p) == IF LangOf(p) # base /\ tr[p][LangOf(p)] = "blanks" THEN "" ELSE Source(LangOf(p), base)
 Expected ==
   [text |-> Source(LangOf("text"), base), attachments |-> Source(LangOf("attachments"), base),
-   quick_replies |-> Source(LangOf("quick_replies"), base), name |-> Source(LangOf("name"), base),
+   quick_replies |-> SrcOf("quick_replies"), name |-> Source(LangOf("name"), base),
    arguments |-> Source(PickArgs(P, base, tr["arguments"]), base),
    locale |-> MsgLang([text |-> HasPart("text"), attachments |-> HasPart("attachments"), quick_replies |-> HasPart("quick_replies")],
                       [text |-> LangOf("text"), attachments |-> LangOf("attachments"), quick_replies |-> LangOf("quick_replies")])]
@@ -61,6 +63,6 @@ Expected ==
 PrefsOK == /\ P[Len(P)] = base /\ Len(P) <= 3
            /\ (cl # "" /\ InList(cl, allowed) => P[1] = cl)
 ChoiceOK == \A p \in Props \ {"arguments"} : LET l == LangOf(p) IN
-              /\ (l # base => tr[p][l] = "present")
-              /\ \A i \in DOMAIN P : (P[i] # base /\ tr[p][P[i]] = "present" /\ \A j \in 1..(i - 1) : P[j] # base /\ tr[p][P[j]] # "present") => l = P[i]
+              /\ (l # base => Usable(tr[p][l]))
+              /\ \A i \in DOMAIN P : (P[i] # base /\ Usable(tr[p][P[i]]) /\ \A j \in 1..(i - 1) : P[j] # base /\ ~Usable(tr[p][P[j]])) => l = P[i]
 =============================================================================
